@@ -8,7 +8,7 @@ From Coq Require Import List NArith ZArith Bool.
 Import ListNotations.
 From Base Require Import PyStr CliTypes Regex.
 From Model Require Import Ast Typography Render Pipeline.
-From Proofs Require Import RegexFacts TypoProofs EllProofs RenderProofs TotalProofs WrapperTotal PipelineTotal.
+From Proofs Require Import RegexFacts TypoProofs EllProofs RenderProofs TotalProofs WrapperTotal PipelineTotal FenceProofs.
 
 (* 1. The regex engine always answers (no fuel exhaustion), for every pattern and input. *)
 Theorem C12_regex_total : forall p s,
@@ -73,3 +73,15 @@ Print Assumptions C12_fill_markdown_never_raises.
 Theorem C12_line_wrappers_never_raise : forall o t i1 i2, exists r, md_wrapper o t i1 i2 = ret r.
 Proof. exact (md_wrapper_total C12_certificates). Qed.
 Print Assumptions C12_line_wrappers_never_raise.
+
+(* 7. Blank lines inside code blocks carry no added trailing spaces: an empty content line is written
+   as the container prefix with its trailing whitespace removed (and every other content line as
+   prefix + line, FenceProofs.code_block_lines). *)
+Theorem C12_blank_code_lines_clean : forall lang extra fc flen content st,
+  fst (render_code lang extra fc flen content st)
+  = join [nlc] ((r_prefix st ++ repeat fc (fence_len fc flen content) ++ info_sep fc (info_of lang extra) ++ info_of lang extra)
+                :: map (written_line (r_prefix2 st)) (code_lines content)
+                ++ [r_prefix2 st ++ repeat fc (fence_len fc flen content)]) ++ [nlc]
+  /\ forall p2, rstrip (written_line p2 []) = written_line p2 [].
+Proof. intros. split; [apply code_block_lines|apply blank_code_line_has_no_trailing_space]. Qed.
+Print Assumptions C12_blank_code_lines_clean.
